@@ -172,7 +172,7 @@ PROPS = {
     ),
     "C17": dict(
         pkg="c17",
-        units=[rapid("TestPropRoundTrip", 24000, 120000), rapid("TestPropTransforms", 60000, 300000), rapid("TestPropTypes", 45000, 250000), rapid("TestPropStreams", 45000, 250000),
+        units=[rapid("TestPropRoundTrip", 16000, 120000), rapid("TestPropTransforms", 30000, 300000), rapid("TestPropTypes", 30000, 250000), rapid("TestPropStreams", 20000, 250000),
                fuzz("FuzzRoundTrip", 90), fuzz("FuzzToken", 90)],
         assumptions=COMMON_ASSUME + ["encoding/json of the default toolchain (go1.23.5) is the reference for everything the fork shares with it; known, normalised differences: spelling of U+0008/U+000C, the distinct Number type (Decoder.UseNumber on the standard side); error message texts are not compared, only dynamic error types"],
         technique="property-based testing (rapid): decode->encode round trip through an independent reader; byte-exact text-transform oracles; differential testing against encoding/json over reflect.StructOf-generated types with type-directed inputs and over Decoder/Encoder streams; native fuzzing in the thorough tier",
